@@ -2,7 +2,7 @@
 """tools/seedsave.py <Cxx> <name> <detected_by comma list> <initially: yes|no> <note>: archive /tmp/seed/out/<Cxx> as /verif/seeded/<name>/"""
 import json, os, shutil, sys, glob
 cid, name, det, init, note = sys.argv[1:6]
-src = '/tmp/seed/out/' + cid
+src = os.environ.get('SEED_ROOT', '/tmp/seed') + '/out/' + cid
 dst = '/verif/seeded/' + name
 os.makedirs(dst, exist_ok=True)
 for f in glob.glob(src + '/*'):
